@@ -200,6 +200,28 @@ def run(ctx):
             line = "K EQU %s%s%s\n" % (pre, tok, stray)
         longs.append([line] if rnd.random() < 0.7 else [" ORG $1000\n", line, " RTS \n"])
     asmcheck.run_text_suite(ctx, "long-tokens", longs)
+    # expressions in the operands of the pseudo operations (EQU, ORG, RMB, FCB, FDB, SETDP, END): terms that are undefined, defined later, defined by another
+    # expression, zero divisors, results beyond 16 bits - and statements that then use the symbol: every one ends with an image or a diagnostic
+    pseudo = []
+    terms = ["1", "5", "255", "256", "300", "65535", "$10", "$FFFF", "0", "EARLY", "LATER", "NOSUCH", "LAB", "LAB2", "K"]
+    for _ in range(30000 if thorough else 4000):
+        def expr():
+            r = rnd.random()
+            if r < 0.25:
+                return rnd.choice(terms)
+            return rnd.choice(terms) + rnd.choice("+-*/") + rnd.choice(terms)
+        lines = [" ORG $%X\n" % rnd.choice([0, 0x80, 0xFE, 0x0E00, 0xFFF0]) if rnd.random() < 0.7 else " ORG %s\n" % expr(), "EARLY EQU %s\n" % rnd.choice(["7", "$1234", "0", "65535"]), "LAB NOP \n"]
+        for _j in range(rnd.randint(1, 4)):
+            mn = rnd.choice(["EQU", "EQU", "EQU", "ORG", "RMB", "FCB", "FDB", "SETDP", "END"])
+            lab = rnd.choice(["K", "K", "M", "N", ""]) if mn in ("EQU", "RMB", "FCB", "FDB") else ""
+            if mn == "EQU" and not lab:
+                lab = "K"
+            lines.append("%s %s %s\n" % (lab, mn, expr() if rnd.random() < 0.85 else expr() + "," + expr()))
+            if rnd.random() < 0.6:
+                lines.append(" %s\n" % rnd.choice(["LDA #K", "LDX #K", "LDA K", "LDA <K", "JMP K", "LDA K,X", "LDX #K+1", "FDB K", "FCB K", "LEAX K,PCR", "BRA K", "LDA [K]", "RMB K", "LDB #M", "LDY #N-1"]))
+        lines += ["LAB2 RTS \n", "LATER EQU 9\n"]
+        pseudo.append(lines)
+    asmcheck.run_text_suite(ctx, "pseudo-op-expressions", pseudo)
     # INCLUDE of a missing file and inclusion cycles of length 1-3 (the other data-dependent recursion)
     from harness.props import c19
     import multiprocessing as mp
